@@ -337,5 +337,592 @@ theorem addPointGates_exists (a b : Pt) (c : Composer) (hpi : PiFresh c)
 
 theorem componentAddPoint_eq (a b : Pt) : componentAddPoint a b = addPointGates a b := rfl
 
+theorem componentAddPoint_fst (a b : Pt) (c : Composer) :
+    ((componentAddPoint a b).run c).1 = (c.wit.size + 1, c.wit.size + 2) :=
+  addPointGates_fst a b c
+
+/-! ### `component_neg_point` : one `gate_mul` with `q_L = −1` -/
+
+/-- the constraint of `component_neg_point` -/
+def negC (p : Pt) : Constraint := { ql := R - 1, a := p.1 }
+
+theorem componentNegPoint_run (p : Pt) (c : Composer) :
+    (componentNegPoint p).run c = ((c.wit.size, p.2), ((gateAdd (negC p)).run c).2) := by
+  unfold componentNegPoint negC
+  simp only [bind, StateT.bind, StateT.run, gateMul, pure, StateT.pure]
+  rw [gateAdd_apply]
+
+theorem componentNegPoint_fst (p : Pt) (c : Composer) :
+    ((componentNegPoint p).run c).1 = (c.wit.size, p.2) := by rw [componentNegPoint_run]
+
+theorem componentNegPoint_snd (p : Pt) (c : Composer) :
+    ((componentNegPoint p).run c).2 = ((gateAdd (negC p)).run c).2 := by
+  rw [componentNegPoint_run]
+
+theorem componentNegPoint_appends (p : Pt) (c : Composer) :
+    Appends c ((componentNegPoint p).run c).2 1 1 := by
+  rw [componentNegPoint_snd]; exact gateAdd_appends _ c
+
+theorem componentNegPoint_appendsL (p : Pt) (c : Composer) :
+    AppendsL c ((componentNegPoint p).run c).2 1 1 := (componentNegPoint_appends p c).toL
+
+theorem componentNegPoint_extends (p : Pt) (c : Composer) :
+    Extends c ((componentNegPoint p).run c).2 := (componentNegPoint_appends p c).ext
+
+theorem componentNegPoint_wf (p : Pt) (c : Composer) (h : WF c) :
+    WF ((componentNegPoint p).run c).2 := by
+  rw [componentNegPoint_snd]; exact gateAdd_wf _ c h
+
+/-- `component_neg_point p`: the appended row holds iff the new wire carries `−x` -/
+theorem componentNegPoint_rows_iff (p : Pt) (c : Composer) (h : WF c) (w : Nat → Nat) :
+    ((componentNegPoint p).run c).2.rowsHoldW w c.gates.size
+        ((componentNegPoint p).run c).2.gates.size ↔
+      toF (w c.wit.size) = - toF (w p.1) := by
+  rw [componentNegPoint_snd, gateAdd_rows_iff _ c h]
+  simp [Constraint.evalF, Constraint.piF, negC, toF_R_sub_one]
+
+/-- **soundness of `component_neg_point`** (arbitrary assignment): the returned pair carries the
+    negated point — the new wire is determined — and stays on the curve. -/
+theorem componentNegPoint_sound (p : Pt) (c : Composer) (h : WF c) (w : Nat → Nat)
+    (hr : ((componentNegPoint p).run c).2.rowsHoldW w c.gates.size
+        ((componentNegPoint p).run c).2.gates.size) :
+    ptW w ((componentNegPoint p).run c).1 = negF (ptW w p) ∧
+    (OnCurveP (ptW w p) → OnCurveP (ptW w ((componentNegPoint p).run c).1)) := by
+  have e := (componentNegPoint_rows_iff p c h w).mp hr
+  have e2 : ptW w ((componentNegPoint p).run c).1 = negF (ptW w p) := by
+    rw [componentNegPoint_fst]; unfold ptW negF; simp only [e]
+  exact ⟨e2, fun hc => by rw [e2]; exact neg_on_curveP hc⟩
+
+theorem componentNegPoint_val (p : Pt) (c : Composer) :
+    toF (((componentNegPoint p).run c).2.val c.wit.size) = - toF (c.val p.1) := by
+  rw [componentNegPoint_snd, gateAdd_val]
+  simp [Constraint.evalF, negC, toF_R_sub_one]
+
+/-- **completeness of `component_neg_point`**: the model's table satisfies the row -/
+theorem componentNegPoint_honest_ext (p : Pt) (c : Composer) (hwf : WF c) (hp : PtAlloc c p)
+    {c'' : Composer} (hext : Extends ((componentNegPoint p).run c).2 c'') :
+    ((componentNegPoint p).run c).2.rowsHoldW c''.val c.gates.size
+      ((componentNegPoint p).run c).2.gates.size := by
+  rw [componentNegPoint_snd] at hext ⊢
+  exact gateAdd_honest_ext (negC p) c hwf (fun _ => rfl) hp.1
+    (Nat.lt_of_le_of_lt (Nat.zero_le _) hp.1) (Nat.lt_of_le_of_lt (Nat.zero_le _) hp.1) hext
+
+theorem componentNegPoint_honest (p : Pt) (c : Composer) (hwf : WF c) (hp : PtAlloc c p) :
+    ((componentNegPoint p).run c).2.rowsHoldW ((componentNegPoint p).run c).2.val c.gates.size
+      ((componentNegPoint p).run c).2.gates.size :=
+  componentNegPoint_honest_ext p c hwf hp (Extends.refl _)
+
+/-- the point the model stores in the returned pair -/
+theorem componentNegPoint_ptW_val (p : Pt) (c : Composer) (hp : PtAlloc c p) :
+    ptW ((componentNegPoint p).run c).2.val ((componentNegPoint p).run c).1 =
+      negF (ptW c.val p) := by
+  rw [componentNegPoint_fst]
+  unfold ptW negF
+  simp only [componentNegPoint_val, (componentNegPoint_extends p c).val_eq hp.2]
+
+/-! ### `component_sub_point` : negate, then add -/
+
+/-- state after the negation gate -/
+def subMid (c : Composer) (b : Pt) : Composer := ((componentNegPoint b).run c).2
+
+theorem subMid_appends (c : Composer) (b : Pt) : Appends c (subMid c b) 1 1 :=
+  componentNegPoint_appends b c
+
+theorem subMid_wf (c : Composer) (b : Pt) (h : WF c) : WF (subMid c b) :=
+  componentNegPoint_wf b c h
+
+theorem subMid_wit_size (c : Composer) (b : Pt) : (subMid c b).wit.size = c.wit.size + 1 :=
+  (subMid_appends c b).wit
+
+theorem subMid_gates_size (c : Composer) (b : Pt) : (subMid c b).gates.size = c.gates.size + 1 :=
+  (subMid_appends c b).gates
+
+theorem componentSubPoint_run (a b : Pt) (c : Composer) :
+    (componentSubPoint a b).run c = (addPointGates a (c.wit.size, b.2)).run (subMid c b) := by
+  unfold componentSubPoint componentAddPoint subMid
+  rw [run_bind', componentNegPoint_fst]
+
+theorem componentSubPoint_fst (a b : Pt) (c : Composer) :
+    ((componentSubPoint a b).run c).1 = (c.wit.size + 2, c.wit.size + 3) := by
+  rw [componentSubPoint_run, addPointGates_fst, subMid_wit_size]
+
+theorem componentSubPoint_appendsL (a b : Pt) (c : Composer) :
+    AppendsL c ((componentSubPoint a b).run c).2 3 4 := by
+  rw [componentSubPoint_run]
+  exact (subMid_appends c b).toL.trans (addPointGates_appendsL _ _ _)
+
+theorem componentSubPoint_extends (a b : Pt) (c : Composer) :
+    Extends c ((componentSubPoint a b).run c).2 := (componentSubPoint_appendsL a b c).ext
+
+theorem componentSubPoint_wf (a b : Pt) (c : Composer) (h : WF c) :
+    WF ((componentSubPoint a b).run c).2 := by
+  rw [componentSubPoint_run]
+  exact addPointGates_wf _ _ _ (subMid_wf c b h)
+
+/-- `component_sub_point a b`: the three appended rows hold iff wire `n` carries `−x2` and the
+    curve-addition identities hold for `a`, `(n, y2)` with helper `n+1` and output `(n+2, n+3)` -/
+theorem componentSubPoint_rows_iff (a b : Pt) (c : Composer) (h : WF c) (w : Nat → Nat) :
+    ((componentSubPoint a b).run c).2.rowsHoldW w c.gates.size
+        ((componentSubPoint a b).run c).2.gates.size ↔
+      toF (w c.wit.size) = - toF (w b.1) ∧
+      VarRowF (toF (w a.1)) (toF (w a.2)) (toF (w c.wit.size)) (toF (w b.2))
+        (toF (w (c.wit.size + 2))) (toF (w (c.wit.size + 3))) (toF (w (c.wit.size + 1))) := by
+  rw [componentSubPoint_run,
+    (subMid_appends c b).toL.rows_split (addPointGates_extends _ _ _) w]
+  have r1 : (subMid c b).rowsHoldW w c.gates.size (subMid c b).gates.size ↔ _ :=
+    componentNegPoint_rows_iff b c h w
+  have r2 := addPointGates_rows_iff a (c.wit.size, b.2) (subMid c b) (subMid_wf c b h).piFresh w
+  rw [subMid_wit_size] at r2
+  exact and_congr r1 r2
+
+/-- **soundness of `component_sub_point`**: for an arbitrary assignment with on-curve inputs the
+    rows force every new wire: `n = −x2`, helper `n+1 = x1·y2`, output = `a + (−b)`, on curve. -/
+theorem componentSubPoint_sound (a b : Pt) (c : Composer) (h : WF c) (w : Nat → Nat)
+    (h1 : OnCurveP (ptW w a)) (h2 : OnCurveP (ptW w b))
+    (hr : ((componentSubPoint a b).run c).2.rowsHoldW w c.gates.size
+        ((componentSubPoint a b).run c).2.gates.size) :
+    toF (w c.wit.size) = - toF (w b.1) ∧
+    toF (w (c.wit.size + 1)) = toF (w a.1) * toF (w b.2) ∧
+    ptW w ((componentSubPoint a b).run c).1 = addF (ptW w a) (negF (ptW w b)) ∧
+    OnCurveP (ptW w ((componentSubPoint a b).run c).1) := by
+  obtain ⟨e1, e2⟩ := (componentSubPoint_rows_iff a b c h w).mp hr
+  have hn : (toF (w c.wit.size), toF (w b.2)) = negF (ptW w b) := by
+    unfold negF ptW; simp only [e1]
+  have h2' : OnCurveP (toF (w c.wit.size), toF (w b.2)) := by rw [hn]; exact neg_on_curveP h2
+  obtain ⟨e3, e4⟩ := (varRowF_iff_of_on_curve h1 h2' _ _ _).mp e2
+  rw [hn] at e4
+  rw [componentSubPoint_fst]
+  exact ⟨e1, e3, e4, by
+    show OnCurveP (toF (w (c.wit.size + 2)), toF (w (c.wit.size + 3)))
+    rw [e4]; exact add_on_curveP h1 (neg_on_curveP h2)⟩
+
+/-- **completeness of `component_sub_point`**: the model's table satisfies the rows for allocated
+    on-curve inputs -/
+theorem componentSubPoint_honest_ext (a b : Pt) (c : Composer) (hwf : WF c)
+    (ha : PtAlloc c a) (hb : PtAlloc c b)
+    (h1 : OnCurveP (ptW c.val a)) (h2 : OnCurveP (ptW c.val b))
+    {c'' : Composer} (hext : Extends ((componentSubPoint a b).run c).2 c'') :
+    ((componentSubPoint a b).run c).2.rowsHoldW c''.val c.gates.size
+      ((componentSubPoint a b).run c).2.gates.size := by
+  rw [componentSubPoint_run] at hext ⊢
+  have hx1 : Extends c (subMid c b) := (subMid_appends c b).ext
+  have hx2 := addPointGates_extends a (c.wit.size, b.2) (subMid c b)
+  rw [(subMid_appends c b).toL.rows_split hx2]
+  have hnb : ptW (subMid c b).val (c.wit.size, b.2) = negF (ptW c.val b) := by
+    have := componentNegPoint_ptW_val b c hb
+    rwa [componentNegPoint_fst] at this
+  have x1 : Extends (subMid c b) c'' := hx2.trans hext
+  refine ⟨componentNegPoint_honest_ext b c hwf hb x1, ?_⟩
+  refine addPointGates_honest_ext a (c.wit.size, b.2) (subMid c b)
+    (subMid_wf c b hwf).piFresh (ha.mono hx1)
+    ⟨by rw [subMid_wit_size]; exact Nat.lt_succ_self _, Nat.lt_of_lt_of_le hb.2 hx1.wit_size⟩
+    ?_ ?_ hext
+  · rw [hx1.ptW_val_eq ha]; exact h1
+  · rw [hnb]; exact neg_on_curveP h2
+
+theorem componentSubPoint_honest (a b : Pt) (c : Composer) (hwf : WF c)
+    (ha : PtAlloc c a) (hb : PtAlloc c b)
+    (h1 : OnCurveP (ptW c.val a)) (h2 : OnCurveP (ptW c.val b)) :
+    ((componentSubPoint a b).run c).2.rowsHoldW ((componentSubPoint a b).run c).2.val c.gates.size
+      ((componentSubPoint a b).run c).2.gates.size :=
+  componentSubPoint_honest_ext a b c hwf ha hb h1 h2 (Extends.refl _)
+
+/-- the point the model stores in the returned pair: `a − b` -/
+theorem componentSubPoint_ptW_val (a b : Pt) (c : Composer) (hwf : WF c)
+    (ha : PtAlloc c a) (hb : PtAlloc c b)
+    (h1 : OnCurveP (ptW c.val a)) (h2 : OnCurveP (ptW c.val b)) :
+    ptW ((componentSubPoint a b).run c).2.val ((componentSubPoint a b).run c).1 =
+      addF (ptW c.val a) (negF (ptW c.val b)) := by
+  have hs := componentSubPoint_sound a b c hwf _
+    (by rw [(componentSubPoint_extends a b c).ptW_val_eq ha]; exact h1)
+    (by rw [(componentSubPoint_extends a b c).ptW_val_eq hb]; exact h2)
+    (componentSubPoint_honest a b c hwf ha hb h1 h2)
+  rw [hs.2.2.1, (componentSubPoint_extends a b c).ptW_val_eq ha,
+    (componentSubPoint_extends a b c).ptW_val_eq hb]
+
+/-! ### `select_identity_gates` / `component_select_identity` -/
+
+/-- field-level selection between `P` (`b = 1`) and the identity (`b = 0`):
+    `(b·x, 1 − b + b·y)` -/
+def selF (b : F) (P : PtF) : PtF := (b * P.1, 1 - b + b * P.2)
+
+@[simp] theorem selF_zero (P : PtF) : selF 0 P = idF := by simp [selF, idF]
+@[simp] theorem selF_one (P : PtF) : selF 1 P = P := by simp [selF]
+
+theorem selF_on_curve {b : F} {P : PtF} (hb : b = 0 ∨ b = 1) (hP : OnCurveP P) :
+    OnCurveP (selF b P) := by
+  rcases hb with rfl | rfl
+  · rw [selF_zero]; exact id_on_curveP
+  · rw [selF_one]; exact hP
+
+/-- state after the `select_zero` gate -/
+def selIdMid (c : Composer) (bit : Nat) (a : Pt) : Composer :=
+  ((componentSelectZero bit a.1).run c).2
+
+theorem selIdMid_appends (c : Composer) (bit : Nat) (a : Pt) :
+    Appends c (selIdMid c bit a) 1 1 := componentSelectZero_appends bit a.1 c
+
+theorem selIdMid_wf (c : Composer) (bit : Nat) (a : Pt) (h : WF c) : WF (selIdMid c bit a) :=
+  componentSelectZero_wf bit a.1 c h
+
+theorem selIdMid_wit_size (c : Composer) (bit : Nat) (a : Pt) :
+    (selIdMid c bit a).wit.size = c.wit.size + 1 := (selIdMid_appends c bit a).wit
+
+theorem selectIdentityGates_run (bit : Nat) (a : Pt) (c : Composer) :
+    (selectIdentityGates bit a).run c =
+      ((c.wit.size, c.wit.size + 1), ((componentSelectOne bit a.2).run (selIdMid c bit a)).2) := by
+  unfold selectIdentityGates
+  rw [run_bind', run_bind']
+  show ((((componentSelectZero bit a.1).run c).1,
+    ((componentSelectOne bit a.2).run (selIdMid c bit a)).1),
+    ((componentSelectOne bit a.2).run (selIdMid c bit a)).2) = _
+  rw [componentSelectZero_fst, componentSelectOne_fst, selIdMid_wit_size]
+
+theorem selectIdentityGates_fst (bit : Nat) (a : Pt) (c : Composer) :
+    ((selectIdentityGates bit a).run c).1 = (c.wit.size, c.wit.size + 1) := by
+  rw [selectIdentityGates_run]
+
+theorem selectIdentityGates_snd (bit : Nat) (a : Pt) (c : Composer) :
+    ((selectIdentityGates bit a).run c).2 =
+      ((componentSelectOne bit a.2).run (selIdMid c bit a)).2 := by
+  rw [selectIdentityGates_run]
+
+theorem selectIdentityGates_appends (bit : Nat) (a : Pt) (c : Composer) :
+    Appends c ((selectIdentityGates bit a).run c).2 2 2 := by
+  rw [selectIdentityGates_snd]
+  exact (selIdMid_appends c bit a).trans (componentSelectOne_appends bit a.2 _)
+
+theorem selectIdentityGates_appendsL (bit : Nat) (a : Pt) (c : Composer) :
+    AppendsL c ((selectIdentityGates bit a).run c).2 2 2 :=
+  (selectIdentityGates_appends bit a c).toL
+
+theorem selectIdentityGates_extends (bit : Nat) (a : Pt) (c : Composer) :
+    Extends c ((selectIdentityGates bit a).run c).2 := (selectIdentityGates_appends bit a c).ext
+
+theorem selectIdentityGates_wf (bit : Nat) (a : Pt) (c : Composer) (h : WF c) :
+    WF ((selectIdentityGates bit a).run c).2 := by
+  rw [selectIdentityGates_snd]
+  exact componentSelectOne_wf _ _ _ (selIdMid_wf c bit a h)
+
+/-- `select_identity_gates bit a`: the two appended rows hold iff the returned pair carries
+    `(bit·x, 1 − bit + bit·y)` (no booleanity is enforced here) -/
+theorem selectIdentityGates_rows_iff (bit : Nat) (a : Pt) (c : Composer) (h : WF c)
+    (w : Nat → Nat) :
+    ((selectIdentityGates bit a).run c).2.rowsHoldW w c.gates.size
+        ((selectIdentityGates bit a).run c).2.gates.size ↔
+      ptW w (c.wit.size, c.wit.size + 1) = selF (toF (w bit)) (ptW w a) := by
+  rw [selectIdentityGates_snd,
+    (selIdMid_appends c bit a).rows_split (componentSelectOne_appends bit a.2 _) w]
+  have r1 : (selIdMid c bit a).rowsHoldW w c.gates.size (selIdMid c bit a).gates.size ↔ _ :=
+    componentSelectZero_rows_iff bit a.1 c h w
+  have r2 := componentSelectOne_rows_iff bit a.2 (selIdMid c bit a) (selIdMid_wf c bit a h) w
+  rw [selIdMid_wit_size] at r2
+  rw [r1, r2]
+  unfold ptW selF
+  simp only [Prod.mk.injEq]
+
+/-- **soundness of `select_identity_gates`** for a boolean-valued bit wire: the output is the
+    identity (`bit = 0`) or the input point (`bit = 1`), and is on the curve if the input is -/
+theorem selectIdentityGates_sound (bit : Nat) (a : Pt) (c : Composer) (h : WF c) (w : Nat → Nat)
+    (hr : ((selectIdentityGates bit a).run c).2.rowsHoldW w c.gates.size
+        ((selectIdentityGates bit a).run c).2.gates.size) :
+    ptW w ((selectIdentityGates bit a).run c).1 = selF (toF (w bit)) (ptW w a) ∧
+    (toF (w bit) = 0 → ptW w ((selectIdentityGates bit a).run c).1 = idF) ∧
+    (toF (w bit) = 1 → ptW w ((selectIdentityGates bit a).run c).1 = ptW w a) := by
+  have e := (selectIdentityGates_rows_iff bit a c h w).mp hr
+  rw [selectIdentityGates_fst]
+  exact ⟨e, fun hb => by rw [e, hb, selF_zero], fun hb => by rw [e, hb, selF_one]⟩
+
+theorem selectIdentityGates_honest_ext (bit : Nat) (a : Pt) (c : Composer) (hwf : WF c)
+    (hb : bit < c.wit.size) (ha : PtAlloc c a)
+    {c'' : Composer} (hext : Extends ((selectIdentityGates bit a).run c).2 c'') :
+    ((selectIdentityGates bit a).run c).2.rowsHoldW c''.val c.gates.size
+      ((selectIdentityGates bit a).run c).2.gates.size := by
+  rw [selectIdentityGates_snd] at hext ⊢
+  have A1 := selIdMid_appends c bit a
+  have A2 := componentSelectOne_appends bit a.2 (selIdMid c bit a)
+  rw [A1.rows_split A2]
+  have x1 : Extends (selIdMid c bit a) c'' := A2.ext.trans hext
+  exact ⟨componentSelectZero_honest_ext bit a.1 c hwf hb ha.1 x1,
+    componentSelectOne_honest_ext bit a.2 _ (selIdMid_wf c bit a hwf)
+      (Nat.lt_of_lt_of_le hb A1.ext.wit_size) (Nat.lt_of_lt_of_le ha.2 A1.ext.wit_size) hext⟩
+
+theorem selectIdentityGates_honest (bit : Nat) (a : Pt) (c : Composer) (hwf : WF c)
+    (hb : bit < c.wit.size) (ha : PtAlloc c a) :
+    ((selectIdentityGates bit a).run c).2.rowsHoldW ((selectIdentityGates bit a).run c).2.val
+      c.gates.size ((selectIdentityGates bit a).run c).2.gates.size :=
+  selectIdentityGates_honest_ext bit a c hwf hb ha (Extends.refl _)
+
+/-- the point the model stores in the returned pair -/
+theorem selectIdentityGates_ptW_val (bit : Nat) (a : Pt) (c : Composer) (hwf : WF c)
+    (hb : bit < c.wit.size) (ha : PtAlloc c a) :
+    ptW ((selectIdentityGates bit a).run c).2.val ((selectIdentityGates bit a).run c).1 =
+      selF (toF (c.val bit)) (ptW c.val a) := by
+  have hs := (selectIdentityGates_sound bit a c hwf _
+    (selectIdentityGates_honest bit a c hwf hb ha)).1
+  have hx := selectIdentityGates_extends bit a c
+  rw [hs, hx.val_eq hb, hx.ptW_val_eq ha]
+
+/-! `component_select_identity` = `component_boolean` + `select_identity_gates` -/
+
+/-- state after the boolean gate -/
+def selIdB (c : Composer) (bit : Nat) : Composer := ((componentBoolean bit).run c).2
+
+theorem selIdB_appends (c : Composer) (bit : Nat) : Appends c (selIdB c bit) 1 0 :=
+  componentBoolean_appends bit c
+
+theorem selIdB_wf (c : Composer) (bit : Nat) (h : WF c) : WF (selIdB c bit) :=
+  componentBoolean_wf bit c h
+
+theorem selIdB_wit_size (c : Composer) (bit : Nat) : (selIdB c bit).wit.size = c.wit.size :=
+  (selIdB_appends c bit).wit
+
+theorem selIdB_gates_size (c : Composer) (bit : Nat) :
+    (selIdB c bit).gates.size = c.gates.size + 1 := (selIdB_appends c bit).gates
+
+theorem componentSelectIdentity_run (bit : Nat) (a : Pt) (c : Composer) :
+    (componentSelectIdentity bit a).run c = (selectIdentityGates bit a).run (selIdB c bit) := by
+  unfold componentSelectIdentity
+  rw [run_bind']; rfl
+
+theorem componentSelectIdentity_fst (bit : Nat) (a : Pt) (c : Composer) :
+    ((componentSelectIdentity bit a).run c).1 = (c.wit.size, c.wit.size + 1) := by
+  rw [componentSelectIdentity_run, selectIdentityGates_fst, selIdB_wit_size]
+
+theorem componentSelectIdentity_appends (bit : Nat) (a : Pt) (c : Composer) :
+    Appends c ((componentSelectIdentity bit a).run c).2 3 2 := by
+  rw [componentSelectIdentity_run]
+  exact (selIdB_appends c bit).trans (selectIdentityGates_appends bit a _)
+
+theorem componentSelectIdentity_appendsL (bit : Nat) (a : Pt) (c : Composer) :
+    AppendsL c ((componentSelectIdentity bit a).run c).2 3 2 :=
+  (componentSelectIdentity_appends bit a c).toL
+
+theorem componentSelectIdentity_extends (bit : Nat) (a : Pt) (c : Composer) :
+    Extends c ((componentSelectIdentity bit a).run c).2 :=
+  (componentSelectIdentity_appends bit a c).ext
+
+theorem componentSelectIdentity_wf (bit : Nat) (a : Pt) (c : Composer) (h : WF c) :
+    WF ((componentSelectIdentity bit a).run c).2 := by
+  rw [componentSelectIdentity_run]
+  exact selectIdentityGates_wf _ _ _ (selIdB_wf c bit h)
+
+/-- `component_select_identity bit a`: the three appended rows hold iff the bit wire is `0` or `1`
+    and the returned pair carries `(bit·x, 1 − bit + bit·y)` -/
+theorem componentSelectIdentity_rows_iff (bit : Nat) (a : Pt) (c : Composer) (h : WF c)
+    (w : Nat → Nat) :
+    ((componentSelectIdentity bit a).run c).2.rowsHoldW w c.gates.size
+        ((componentSelectIdentity bit a).run c).2.gates.size ↔
+      (toF (w bit) = 0 ∨ toF (w bit) = 1) ∧
+      ptW w (c.wit.size, c.wit.size + 1) = selF (toF (w bit)) (ptW w a) := by
+  rw [componentSelectIdentity_run,
+    (selIdB_appends c bit).rows_split (selectIdentityGates_appends bit a _) w]
+  have r1 : (selIdB c bit).rowsHoldW w c.gates.size (selIdB c bit).gates.size ↔ _ :=
+    componentBoolean_rows_iff bit c h w
+  have r2 := selectIdentityGates_rows_iff bit a (selIdB c bit) (selIdB_wf c bit h) w
+  rw [selIdB_wit_size] at r2
+  exact and_congr r1 r2
+
+/-- **soundness of `component_select_identity`** (arbitrary assignment): the bit is boolean and
+    the output is the identity for `0`, the input point for `1` -/
+theorem componentSelectIdentity_sound (bit : Nat) (a : Pt) (c : Composer) (h : WF c)
+    (w : Nat → Nat)
+    (hr : ((componentSelectIdentity bit a).run c).2.rowsHoldW w c.gates.size
+        ((componentSelectIdentity bit a).run c).2.gates.size) :
+    (toF (w bit) = 0 ∧ ptW w ((componentSelectIdentity bit a).run c).1 = idF) ∨
+    (toF (w bit) = 1 ∧ ptW w ((componentSelectIdentity bit a).run c).1 = ptW w a) := by
+  obtain ⟨hb, e⟩ := (componentSelectIdentity_rows_iff bit a c h w).mp hr
+  rw [componentSelectIdentity_fst]
+  rcases hb with hb | hb
+  · exact Or.inl ⟨hb, by rw [e, hb, selF_zero]⟩
+  · exact Or.inr ⟨hb, by rw [e, hb, selF_one]⟩
+
+/-- **`component_select_identity` is unsatisfiable for a non-boolean bit** -/
+theorem componentSelectIdentity_unsat (bit : Nat) (a : Pt) (c : Composer) (h : WF c)
+    (w : Nat → Nat) (h0 : toF (w bit) ≠ 0) (h1 : toF (w bit) ≠ 1) :
+    ¬ ((componentSelectIdentity bit a).run c).2.rowsHoldW w c.gates.size
+        ((componentSelectIdentity bit a).run c).2.gates.size := by
+  intro hr
+  rcases ((componentSelectIdentity_rows_iff bit a c h w).mp hr).1 with hb | hb
+  · exact h0 hb
+  · exact h1 hb
+
+/-- **completeness of `component_select_identity`**: the model's table satisfies the rows iff the
+    bit value is `0` or `1` -/
+theorem componentSelectIdentity_honest_ext (bit : Nat) (a : Pt) (c : Composer) (hwf : WF c)
+    (hb : bit < c.wit.size) (ha : PtAlloc c a) (hbit : c.val bit = 0 ∨ c.val bit = 1)
+    {c'' : Composer} (hext : Extends ((componentSelectIdentity bit a).run c).2 c'') :
+    ((componentSelectIdentity bit a).run c).2.rowsHoldW c''.val c.gates.size
+      ((componentSelectIdentity bit a).run c).2.gates.size := by
+  rw [componentSelectIdentity_run] at hext ⊢
+  have A1 := selIdB_appends c bit
+  have A2 := selectIdentityGates_appends bit a (selIdB c bit)
+  rw [A1.rows_split A2]
+  have x1 : Extends (selIdB c bit) c'' := A2.ext.trans hext
+  exact ⟨componentBoolean_honest_ext bit c hwf hb hbit x1,
+    selectIdentityGates_honest_ext bit a _ (selIdB_wf c bit hwf)
+      (Nat.lt_of_lt_of_le hb A1.ext.wit_size) (ha.mono A1.ext) hext⟩
+
+theorem componentSelectIdentity_honest_iff (bit : Nat) (a : Pt) (c : Composer) (hwf : WF c)
+    (hb : bit < c.wit.size) (ha : PtAlloc c a) :
+    ((componentSelectIdentity bit a).run c).2.rowsHoldW
+        ((componentSelectIdentity bit a).run c).2.val c.gates.size
+        ((componentSelectIdentity bit a).run c).2.gates.size ↔
+      (c.val bit = 0 ∨ c.val bit = 1) := by
+  constructor
+  · intro hr
+    have hx := componentSelectIdentity_extends bit a c
+    have := ((componentSelectIdentity_rows_iff bit a c hwf _).mp hr).1
+    rw [hx.val_eq hb] at this
+    have e0 : toF (c.val bit) = 0 ↔ c.val bit = 0 := toF_eq_zero_of_lt (hwf.val_lt bit)
+    have e1 : toF (c.val bit) = 1 ↔ c.val bit = 1 := by
+      rw [← toF_one]; exact toF_inj_of_lt (hwf.val_lt bit) R_gt_one
+    exact (or_congr e0 e1).mp this
+  · intro hbit
+    exact componentSelectIdentity_honest_ext bit a c hwf hb ha hbit (Extends.refl _)
+
+/-- the point the model stores: `P` for bit value `1`, the identity for `0` -/
+theorem componentSelectIdentity_ptW_val (bit : Nat) (a : Pt) (c : Composer) (hwf : WF c)
+    (hb : bit < c.wit.size) (ha : PtAlloc c a) :
+    ptW ((componentSelectIdentity bit a).run c).2.val ((componentSelectIdentity bit a).run c).1 =
+      selF (toF (c.val bit)) (ptW c.val a) := by
+  rw [componentSelectIdentity_run]
+  have hx : Extends c (selIdB c bit) := (selIdB_appends c bit).ext
+  rw [selectIdentityGates_ptW_val bit a _ (selIdB_wf c bit hwf)
+    (Nat.lt_of_lt_of_le hb hx.wit_size) (ha.mono hx), hx.val_eq hb, hx.ptW_val_eq ha]
+
+/-! ### `component_select_point` : `bit·a + (1 − bit)·b` coordinate-wise -/
+
+/-- field-level selection between two points -/
+def selPtF (b : F) (P Q : PtF) : PtF := (b * P.1 + (1 - b) * Q.1, b * P.2 + (1 - b) * Q.2)
+
+@[simp] theorem selPtF_one (P Q : PtF) : selPtF 1 P Q = P := by simp [selPtF]
+@[simp] theorem selPtF_zero (P Q : PtF) : selPtF 0 P Q = Q := by simp [selPtF]
+
+/-- state after the first `component_select` -/
+def selPtMid (c : Composer) (bit : Nat) (a b : Pt) : Composer :=
+  ((componentSelect bit a.1 b.1).run c).2
+
+theorem selPtMid_appends (c : Composer) (bit : Nat) (a b : Pt) :
+    Appends c (selPtMid c bit a b) 4 4 := componentSelect_appends bit a.1 b.1 c
+
+theorem selPtMid_wf (c : Composer) (bit : Nat) (a b : Pt) (h : WF c) :
+    WF (selPtMid c bit a b) := componentSelect_wf bit a.1 b.1 c h
+
+theorem selPtMid_wit_size (c : Composer) (bit : Nat) (a b : Pt) :
+    (selPtMid c bit a b).wit.size = c.wit.size + 4 := (selPtMid_appends c bit a b).wit
+
+theorem componentSelectPoint_run (bit : Nat) (a b : Pt) (c : Composer) :
+    (componentSelectPoint bit a b).run c =
+      ((c.wit.size + 3, c.wit.size + 7),
+        ((componentSelect bit a.2 b.2).run (selPtMid c bit a b)).2) := by
+  unfold componentSelectPoint
+  rw [run_bind', run_bind']
+  show ((((componentSelect bit a.1 b.1).run c).1,
+    ((componentSelect bit a.2 b.2).run (selPtMid c bit a b)).1),
+    ((componentSelect bit a.2 b.2).run (selPtMid c bit a b)).2) = _
+  rw [componentSelect_fst, componentSelect_fst, selPtMid_wit_size]
+
+theorem componentSelectPoint_fst (bit : Nat) (a b : Pt) (c : Composer) :
+    ((componentSelectPoint bit a b).run c).1 = (c.wit.size + 3, c.wit.size + 7) := by
+  rw [componentSelectPoint_run]
+
+theorem componentSelectPoint_snd (bit : Nat) (a b : Pt) (c : Composer) :
+    ((componentSelectPoint bit a b).run c).2 =
+      ((componentSelect bit a.2 b.2).run (selPtMid c bit a b)).2 := by
+  rw [componentSelectPoint_run]
+
+theorem componentSelectPoint_appends (bit : Nat) (a b : Pt) (c : Composer) :
+    Appends c ((componentSelectPoint bit a b).run c).2 8 8 := by
+  rw [componentSelectPoint_snd]
+  exact (selPtMid_appends c bit a b).trans (componentSelect_appends bit a.2 b.2 _)
+
+theorem componentSelectPoint_appendsL (bit : Nat) (a b : Pt) (c : Composer) :
+    AppendsL c ((componentSelectPoint bit a b).run c).2 8 8 :=
+  (componentSelectPoint_appends bit a b c).toL
+
+theorem componentSelectPoint_extends (bit : Nat) (a b : Pt) (c : Composer) :
+    Extends c ((componentSelectPoint bit a b).run c).2 :=
+  (componentSelectPoint_appends bit a b c).ext
+
+theorem componentSelectPoint_wf (bit : Nat) (a b : Pt) (c : Composer) (h : WF c) :
+    WF ((componentSelectPoint bit a b).run c).2 := by
+  rw [componentSelectPoint_snd]
+  exact componentSelect_wf _ _ _ _ (selPtMid_wf c bit a b h)
+
+/-- the eight appended rows: two copies of the `component_select` relation, on the witnesses
+    `n..n+3` (x coordinate) and `n+4..n+7` (y coordinate) -/
+theorem componentSelectPoint_rows_iff (bit : Nat) (a b : Pt) (c : Composer) (h : WF c)
+    (w : Nat → Nat) :
+    ((componentSelectPoint bit a b).run c).2.rowsHoldW w c.gates.size
+        ((componentSelectPoint bit a b).run c).2.gates.size ↔
+      (toF (w c.wit.size) = toF (w bit) * toF (w a.1) ∧
+       toF (w (c.wit.size + 1)) = 1 - toF (w bit) ∧
+       toF (w (c.wit.size + 2)) = toF (w (c.wit.size + 1)) * toF (w b.1) ∧
+       toF (w (c.wit.size + 3)) = toF (w (c.wit.size + 2)) + toF (w c.wit.size)) ∧
+      (toF (w (c.wit.size + 4)) = toF (w bit) * toF (w a.2) ∧
+       toF (w (c.wit.size + 5)) = 1 - toF (w bit) ∧
+       toF (w (c.wit.size + 6)) = toF (w (c.wit.size + 5)) * toF (w b.2) ∧
+       toF (w (c.wit.size + 7)) = toF (w (c.wit.size + 6)) + toF (w (c.wit.size + 4))) := by
+  rw [componentSelectPoint_snd,
+    (selPtMid_appends c bit a b).rows_split (componentSelect_appends bit a.2 b.2 _) w]
+  have r1 : (selPtMid c bit a b).rowsHoldW w c.gates.size (selPtMid c bit a b).gates.size ↔ _ :=
+    componentSelect_rows_iff bit a.1 b.1 c h w
+  have r2 := componentSelect_rows_iff bit a.2 b.2 (selPtMid c bit a b) (selPtMid_wf c bit a b h) w
+  rw [selPtMid_wit_size] at r2
+  exact and_congr r1 r2
+
+/-- **soundness of `component_select_point`** (arbitrary assignment): the returned coordinates
+    are `bit·a + (1 − bit)·b`; hence the first input for `bit = 1`, the second for `bit = 0`.
+    (Booleanity of the bit is NOT enforced by this component.) -/
+theorem componentSelectPoint_sound (bit : Nat) (a b : Pt) (c : Composer) (h : WF c)
+    (w : Nat → Nat)
+    (hr : ((componentSelectPoint bit a b).run c).2.rowsHoldW w c.gates.size
+        ((componentSelectPoint bit a b).run c).2.gates.size) :
+    ptW w ((componentSelectPoint bit a b).run c).1 = selPtF (toF (w bit)) (ptW w a) (ptW w b) ∧
+    (toF (w bit) = 1 → ptW w ((componentSelectPoint bit a b).run c).1 = ptW w a) ∧
+    (toF (w bit) = 0 → ptW w ((componentSelectPoint bit a b).run c).1 = ptW w b) := by
+  obtain ⟨⟨x1, x2, x3, x4⟩, ⟨y1, y2, y3, y4⟩⟩ :=
+    (componentSelectPoint_rows_iff bit a b c h w).mp hr
+  have e : ptW w ((componentSelectPoint bit a b).run c).1 =
+      selPtF (toF (w bit)) (ptW w a) (ptW w b) := by
+    rw [componentSelectPoint_fst]
+    unfold ptW selPtF
+    simp only [Prod.mk.injEq]
+    exact ⟨by rw [x4, x3, x2, x1]; ring, by rw [y4, y3, y2, y1]; ring⟩
+  exact ⟨e, fun hb => by rw [e, hb, selPtF_one], fun hb => by rw [e, hb, selPtF_zero]⟩
+
+/-- **completeness of `component_select_point`**: the model's table always satisfies the rows -/
+theorem componentSelectPoint_honest_ext (bit : Nat) (a b : Pt) (c : Composer) (hwf : WF c)
+    (hbit : bit < c.wit.size) (ha : PtAlloc c a) (hb : PtAlloc c b)
+    {c'' : Composer} (hext : Extends ((componentSelectPoint bit a b).run c).2 c'') :
+    ((componentSelectPoint bit a b).run c).2.rowsHoldW c''.val c.gates.size
+      ((componentSelectPoint bit a b).run c).2.gates.size := by
+  rw [componentSelectPoint_snd] at hext ⊢
+  have A1 := selPtMid_appends c bit a b
+  have A2 := componentSelect_appends bit a.2 b.2 (selPtMid c bit a b)
+  rw [A1.rows_split A2]
+  have x1 : Extends (selPtMid c bit a b) c'' := A2.ext.trans hext
+  exact ⟨componentSelect_honest_ext bit a.1 b.1 c hwf hbit ha.1 hb.1 x1,
+    componentSelect_honest_ext bit a.2 b.2 _ (selPtMid_wf c bit a b hwf)
+      (Nat.lt_of_lt_of_le hbit A1.ext.wit_size) (Nat.lt_of_lt_of_le ha.2 A1.ext.wit_size)
+      (Nat.lt_of_lt_of_le hb.2 A1.ext.wit_size) hext⟩
+
+theorem componentSelectPoint_honest (bit : Nat) (a b : Pt) (c : Composer) (hwf : WF c)
+    (hbit : bit < c.wit.size) (ha : PtAlloc c a) (hb : PtAlloc c b) :
+    ((componentSelectPoint bit a b).run c).2.rowsHoldW ((componentSelectPoint bit a b).run c).2.val
+      c.gates.size ((componentSelectPoint bit a b).run c).2.gates.size :=
+  componentSelectPoint_honest_ext bit a b c hwf hbit ha hb (Extends.refl _)
+
+/-- the point the model stores in the returned pair -/
+theorem componentSelectPoint_ptW_val (bit : Nat) (a b : Pt) (c : Composer) (hwf : WF c)
+    (hbit : bit < c.wit.size) (ha : PtAlloc c a) (hb : PtAlloc c b) :
+    ptW ((componentSelectPoint bit a b).run c).2.val ((componentSelectPoint bit a b).run c).1 =
+      selPtF (toF (c.val bit)) (ptW c.val a) (ptW c.val b) := by
+  have hs := (componentSelectPoint_sound bit a b c hwf _
+    (componentSelectPoint_honest bit a b c hwf hbit ha hb)).1
+  have hx := componentSelectPoint_extends bit a b c
+  rw [hs, hx.val_eq hbit, hx.ptW_val_eq ha, hx.ptW_val_eq hb]
+
 end Composer
 end Plonk
